@@ -1077,6 +1077,34 @@ impl Sessions {
     }
 }
 
+/// Verification hooks (feature `verif`): thin public wrappers over the crate-private
+/// Global Group Encrypted Data Message Counter methods of [`Sessions`].
+#[cfg(all(feature = "verif", feature = "groups"))]
+impl Sessions {
+    pub fn verif_reserve_global_group_data_ctr<C: Crypto>(
+        &mut self,
+        crypto: C,
+    ) -> Result<(u32, Option<u32>), Error> {
+        self.reserve_global_group_data_ctr(crypto)
+    }
+
+    pub fn verif_get_or_init_global_group_data_ctr<C: Crypto>(
+        &mut self,
+        crypto: C,
+    ) -> Result<u32, Error> {
+        self.get_or_init_global_group_data_ctr(crypto)
+    }
+
+    pub fn verif_resume_global_group_data_ctr(&mut self, start: u32) {
+        self.resume_global_group_data_ctr(start)
+    }
+
+    /// `(global_group_data_ctr, group_data_ctr_boundary)`
+    pub fn verif_group_data_ctr_state(&self) -> (u32, u32) {
+        (self.global_group_data_ctr, self.group_data_ctr_boundary)
+    }
+}
+
 impl fmt::Display for Session {
     fn fmt(&self, f: &mut fmt::Formatter<'_>) -> fmt::Result {
         write!(
